@@ -118,6 +118,8 @@ def opcode_for(name):
 def kwargs_for(name, variant):
     kw = dict(VARIANTS[name][variant]) if not isinstance(variant, dict) else dict(variant)
     for k, v in list(kw.items()):
+        if not isinstance(v, str):
+            continue
         if v == "SEG4":
             kw[k] = [copy.deepcopy(SEG4)]
         elif v == "SEG5":
